@@ -292,8 +292,8 @@ def run_unit(unit, variant=None):
 def vacuity_run(unit):
     """second run: `assert(false)` spliced at the entry of every extracted function that has a contract; each must FAIL.
     Returns (ok, detail) where detail lists functions whose precondition is unsatisfiable (vacuous)."""
-    gen_path = os.path.join(VERIF, 'gen', unit + '.rs')
-    mp = json.load(open(os.path.join(VERIF, 'gen', unit + '.map.json')))
+    gen_path = os.path.join(G.GEN, unit + '.rs')
+    mp = json.load(open(os.path.join(G.GEN, unit + '.map.json')))
     lines = open(gen_path).read().split('\n')
     targets = {}
     out = list(lines)
@@ -323,7 +323,7 @@ def vacuity_run(unit):
     inserts.sort(reverse=True)
     for ln, key in inserts:
         out.insert(ln, '    proof { assert(false); } // vp:vacuity %s' % key)
-    vpath = os.path.join(VERIF, 'gen', unit + '_vacuity.rs')
+    vpath = os.path.join(G.GEN, unit + '_vacuity.rs')
     open(vpath, 'w').write('\n'.join(out))
     extra = []
     for m in re.finditer(r'//@@ verus-args (.*)', open(os.path.join(VERIF, 'units', unit + '.rs')).read()):
